@@ -504,7 +504,7 @@ class Mode:
 
 
 PURE_BUILTINS = {"hex", "getattr", "len", "isinstance", "id", "hasattr", "bool", "tuple", "frozenset", "min", "max", "abs", "callable", "type", "iter", "int"}
-SPEC_FUNCS = {"oldfield", "called", "listof", "intof", "after", "values", "entry", "implies", "old", "call", "call2", "all", "any", "no_dups", "seq", "setof", "filt", "addall", "cat", "forall", "exists",
+SPEC_FUNCS = {"flat", "oldfield", "called", "listof", "intof", "after", "values", "entry", "implies", "old", "call", "call2", "all", "any", "no_dups", "seq", "setof", "filt", "addall", "cat", "forall", "exists",
               "is_tuple", "ite", "fresh", "contents", "keys", "dget", "dhas", "rng", "idof", "rev", "prefix", "isinst", "truth",
               "subseq_of", "perm", "count", "sorted_by", "index", "pair", "slice_adj", "typeis", "allocated", "ghost"}
 
@@ -1331,6 +1331,10 @@ def _patch_engine():
         a, b = [self.as_seq(self.pev(x, st, m), st) for x in node.args]
         return SV("seq", L.cat(a, b))
     E.sf_cat = sf_cat
+
+    def sf_flat(self, node, st, m):
+        return SV("seq", L.flat(self.as_seq(self.pev(node.args[0], st, m), st)))
+    E.sf_flat = sf_flat
 
     def sf_rev(self, node, st, m):
         return SV("seq", L.rev(self.as_seq(self.pev(node.args[0], st, m), st)))
@@ -2530,7 +2534,11 @@ def _patch_loops():
                     self.ex_block(s.orelse, se, ctx)
                 else:
                     ctx.k(se)
-            exit_path(sth.assume(i == n))
+            if seq is not None and any("prefix(" in cl for cl in self.inv_clauses(k_ord)):
+                # the full prefix is the sequence itself (instance of axiom slc_full)
+                exit_path(sth.assume(i == n, L.slc(seq, IntVal(0), i) == seq))
+            else:
+                exit_path(sth.assume(i == n))
             # body
             sb = sth.assume(i < n)
             sb = sb.copy(notes=sb.notes + (f"loop{k_ord}:body",))
@@ -2554,10 +2562,63 @@ def _patch_loops():
     E.ex_For = ex_For
 
     def ev_iter(self, node, st, ctx, k):
+        if isinstance(node, ast.Call) and ast.unparse(node.func) in self.c.callees:
+            tgt, spec = self.callee_target(ast.unparse(node.func))
+            fnc = FUNCS.get(tgt)
+            if fnc is not None and fnc.yields:
+                return self.ev_generator_call(fnc, spec, node, st, ctx, k)
         if isinstance(node, ast.Call) and isinstance(node.func, ast.Name) and node.func.id in ("range", "enumerate", "zip", "reversed"):
             return self.ev_list(node.args, st, ctx, lambda svs, st2: k(SV("py", py=(node.func.id, svs)), st2))
         self.ev(node, st, ctx, k)
     E.ev_iter = ev_iter
+
+    def ev_generator_call(self, fnc, spec, node, st, ctx, k):
+        """`for x in gen(args)` where gen is a generator under contract: the loop runs over S = the sequence of values the
+        generator yields before it stops; the callee's postconditions (about `out` = S) are assumed; the callee may raise
+        instead of yielding the next value (handled at the loop head by the caller of ev_iter: see may_raise below)."""
+        def with_args(svs, st2):
+            sub = self.sub(fnc)
+            names, defaults = self.callee_params(fnc)
+            env = {}
+            pos = list(svs)
+            for nm in names:
+                if pos:
+                    env[nm] = pos.pop(0)
+                elif nm in defaults:
+                    env[nm] = self.pev(defaults[nm], st2, Mode(True))
+            for nm, ty in fnc.types.items():
+                if nm in env and env[nm].kind == "v" and env[nm].hint is None and type_hint(ty)[0] == "seq":
+                    env[nm] = SV("seq", self.as_seq(env[nm], st2))
+            # rigid ghost parameters of the callee that the caller binds by name (e.g. S)
+            for nm, ty in fnc.types.items():
+                if nm not in env and nm in st2.env and not nm.startswith("."):
+                    env[nm] = st2.env[nm]
+            cst = st2.copy(env=env)
+            for i, cl in enumerate(fnc.requires):
+                try:
+                    g = sub.truth(sub.pev(ast.parse(cl, mode="eval").body, cst, Mode(True)), cst)
+                except (OutOfSubset, ContractError):
+                    continue        # clause about a ghost parameter the caller does not have
+                self.oblige(st2, g, f"call[{fnc.qualname}].pre[{i}]", node)
+            S = self.fresh("gen_out", Sq)
+            self.callees_used = getattr(self, "callees_used", set())
+            self.callees_used.add(fnc.key)
+            facts = []
+            m_post = Mode(True, cst, None, NONE, {"out": SV("seq", S)})
+            for cl in fnc.ensures:
+                try:
+                    facts.append(sub.truth(sub.pev(ast.parse(cl, mode="eval").body, cst, m_post), cst))
+                except (OutOfSubset, ContractError):
+                    continue
+            st3 = st2.assume(*facts) if facts else st2
+            if spec and spec.get("bind"):
+                st3 = st3.bind(spec["bind"], SV("seq", S))
+            # exceptional termination of the generator: reported once, before the loop (state = loop entry)
+            for exc_name in list(fnc.raises) + list(fnc.may_raise):
+                ctx.exc(exc_name.split("@")[0], st2.copy(notes=st2.notes + (f"L{self.rel_line(node)}:{exc_name}",)), node)
+            k(SV("seq", S), st3)
+        self.ev_list(node.args, st, ctx, with_args)
+    E.ev_generator_call = ev_generator_call
 
     def iter_view(self, node, itsv, st):
         if itsv.kind == "py" and isinstance(itsv.py, tuple) and itsv.py[0] == "range":
